@@ -23,12 +23,30 @@ const (
 
 	FTombCorrupt = "tomb-corrupt" // tombstone file holds bytes that do not gob-decode
 	FTombDir     = "tomb-is-dir"  // tombstone path is a directory (open works, read fails)
+	// The next two damage a store that EXISTS and holds records (they are not
+	// applied, and not counted, while no tombstone file has been written yet):
+	FTombEmpty = "tomb-empty" // the tombstone file is left zero-length (lost data blocks, truncating restore)
+	FTombTorn  = "tomb-torn"  // the tombstone file lost its tail (every byte but the last one)
 )
 
 var allFaults = []string{
 	FTombEIO, FStateEIO, FBothEIO,
 	FKillTomb, FKillState, FKillSync1, FKillSync2, FKillSync3, FKillSync4,
 	FTombCorrupt, FTombDir, FTombOpen,
+	FTombEmpty, FTombTorn,
+}
+
+// dirFaults are the conditions of the state directory the harness prepares
+// before a start and undoes after the refresh.
+var dirFaults = []string{FTombCorrupt, FTombDir, FTombEmpty, FTombTorn}
+
+func isDirFault(f string) bool {
+	for _, d := range dirFaults {
+		if f == d {
+			return true
+		}
+	}
+	return false
 }
 
 func isStraceFault(f string) bool {
